@@ -123,6 +123,13 @@ def lex_rules(nt, shape):
     sequence is a sentence); 'pairs' = L -> L t_i t_(i+1 mod n) (tokens come in fixed pairs: syntax errors naming terms)"""
     if shape == 'pairs':
         return [[i, (i + 1) % nt] for i in range(nt)]
+    if shape == 'errlist':
+        # ... plus a recovery rule  L -> L error t_last  (index nt + 1 stands for the error symbol): multi-character lexemes
+        # are discarded while resynchronising on the last term
+        return [[i] for i in range(nt)] + [[nt + 1, nt - 1]]
+    if shape == 'errstmt':
+        # statements  L -> L t_0 t_last | L error t_last : every other term is a syntax error, recovered from at t_last
+        return [[0, nt - 1], [nt + 1, nt - 1]]
     return [[i] for i in range(nt)]
 
 
@@ -141,7 +148,7 @@ def lex_tu(gid, terms, shape='list'):
                 o.append('auto t%d = typed_term(regex_term<d%d>("%s"), vh::TermF{%d});' % (i, i, t[2], i))      # custom display name
             else:
                 o.append('auto t%d = typed_term(regex_term<d%d>(0), vh::TermF{%d});' % (i, i, i))
-    rl = ['        n0() >= vh::RuleF{0}'] + ['        n0(n0, %s) >= vh::RuleF{%d}' % (', '.join('t%d' % k for k in rs), i + 1) for i, rs in enumerate(lex_rules(len(terms), shape))]
+    rl = ['        n0() >= vh::RuleF{0}'] + ['        n0(n0, %s) >= vh::RuleF{%d}' % (', '.join('error' if k == len(terms) + 1 else 't%d' % k for k in rs), i + 1) for i, rs in enumerate(lex_rules(len(terms), shape))]
     o.append('auto make() { return new parser(n0,')
     o.append('    terms(%s),' % ', '.join('t%d' % i for i in range(len(terms))))
     o.append('    nterms(n0),')
